@@ -87,6 +87,19 @@ def tail(path, n=60):
         return ''
 
 
+def summarize(path, n=8):
+    """the lines of a replay log that say what went wrong"""
+    try:
+        lines = open(path, errors='replace').read().splitlines()
+    except OSError:
+        return ''
+    keys = ('ERROR: ', 'SUMMARY: ', 'runtime error', 'replay FAIL', 'HANG', 'WARNING: ThreadSanitizer', 'Assertion')
+    hits = [l.strip() for l in lines if any(k in l for k in keys)]
+    frames = [l.strip() for l in lines if l.lstrip().startswith('#') and ('/repo/' in l)][:3]
+    out = hits[:n] + frames
+    return '\n    '.join(out) if out else '\n'.join(lines[-6:])
+
+
 def case_bin(path):
     """first line of a case file is `prop@bin`"""
     try:
@@ -218,6 +231,10 @@ def failing_cases(res):
     return out
 
 
+class ReplayBroken(Exception):
+    pass
+
+
 def confirm(binpaths, b, casefile, outdir, times=3):
     fails = 0
     logs = []
@@ -226,6 +243,9 @@ def confirm(binpaths, b, casefile, outdir, times=3):
         logs.append(lg)
         if r == 'fail':
             fails += 1
+        elif r == 'error':
+            # the saved case could not be parsed / matched: the machinery is broken, never "flaky"
+            raise ReplayBroken('replay of %s is impossible: %s' % (casefile, tail(lg, 5).strip()))
     return fails, logs
 
 
@@ -379,7 +399,7 @@ def check(pid, tier):
             continue
         replayed += 1
         if verdict[0] == 'fail':
-            violations.append((cf, 'regression replay fails: ' + tail(verdict[1], 6).strip()))
+            violations.append((cf, 'regression replay fails: ' + summarize(verdict[1])))
     extra['replayed_regression_cases'] = replayed
 
     # 2. probes of open known findings
@@ -420,7 +440,7 @@ def check(pid, tier):
                 continue
             keep = os.path.join(build.build_root(), 'out', pid, 'violation-%s.case' % hashlib.sha1(open(cf, 'rb').read()).hexdigest()[:12])
             shutil.copyfile(cf, keep)
-            violations.append((keep, '%s in %s (%d/3 replays fail): %s' % (how, b['name'], fails, tail(logs[0], 12).strip())))
+            violations.append((keep, '%s in %s (%d/3 replays fail): %s' % (how, b['name'], fails, summarize(logs[0]))))
     if inconclusive:
         extra['inconclusive'] = inconclusive
     if notes:
